@@ -1255,8 +1255,12 @@ def case_func(case, ctx, teneva, rng):
             # (1e-16 relative) in the gauged block cores; the routine feeds
             # the full-degree polynomial to the companion-matrix root finder,
             # whose roots are then off by ~1e-3 (value ~1e-5 below the max)
-            noisy_lead = gauged and any(G.shape[1] >= 3 and G[0, -1, 0] == 0
-                for G in A)
+            # (or come out complex and are dropped: the kept candidate loses
+            # its best continuation).  The routine's own orthogonalize(A, 0)
+            # mixes the blocks of every mode after the first, gauged or not;
+            # the first mode keeps its exact zeros (0 * R = 0, trimmed)
+            noisy_lead = any(G.shape[1] >= 3 and G[0, -1, 0] == 0
+                for G in A[1:])
             ctx.check('func-max-redundant', valr >= best * (1 - 10 * rtol -
                 1e-9) - 1e-300, kf='func-leading-coefficient-at-rounding-level'
                 if noisy_lead else None, msg=lambda: f'optima_func_tt_beam(k={k}, '
